@@ -11,9 +11,27 @@ use std::cell::RefCell;
 use std::io::{Error, ErrorKind, Read, Seek, SeekFrom};
 use std::rc::Rc;
 
+/// One recorded I/O call.  Kept as plain numbers while the crate call is in flight (the reader runs inside the
+/// measured call: a million one-byte reads must not cost a million JSON maps there); `take_io` renders them.
+pub enum IoRec {
+    Read { at: u64, want: u64, got: i64, f: Option<&'static str> },
+    SeekTo(u64),
+    SeekFail(&'static str),
+}
+impl IoRec {
+    fn json(&self) -> Value {
+        match self {
+            IoRec::Read { at, want, got, f: Some(f) } => json!({"op":"read","at":at,"want":want,"got":got,"f":f}),
+            IoRec::Read { at, want, got, f: None } => json!({"op":"read","at":at,"want":want,"got":got}),
+            IoRec::SeekTo(to) => json!({"op":"seek","to":to}),
+            IoRec::SeekFail(f) => json!({"op":"seek","f":f}),
+        }
+    }
+}
+
 #[derive(Default)]
 pub struct Ctl {
-    pub log: Vec<Value>,
+    pub log: Vec<IoRec>,
     pub calls: u64,                  // I/O calls made so far on this reader (reads + seeks)
     pub faults: Vec<(u64, String)>,  // (absolute I/O call index, kind): error | eof | short | interrupted
     pub perm_from: Option<u64>,      // every I/O call from this index on fails
@@ -77,18 +95,19 @@ impl ScriptedReader {
         match f.as_deref() {
             Some(k @ ("error" | "wouldblock" | "timedout" | "brokenpipe" | "unexpectedeof")) => {
                 c.hard_fault = true;
-                c.log.push(json!({"op":"read","at":self.pos,"want":want,"got":-1,"f":k}));
-                let kind = match k { "wouldblock" => ErrorKind::WouldBlock, "timedout" => ErrorKind::TimedOut,
-                                     "brokenpipe" => ErrorKind::BrokenPipe, "unexpectedeof" => ErrorKind::UnexpectedEof, _ => ErrorKind::Other };
+                let (kind, ks) = match k { "wouldblock" => (ErrorKind::WouldBlock, "wouldblock"), "timedout" => (ErrorKind::TimedOut, "timedout"),
+                                           "brokenpipe" => (ErrorKind::BrokenPipe, "brokenpipe"), "unexpectedeof" => (ErrorKind::UnexpectedEof, "unexpectedeof"),
+                                           _ => (ErrorKind::Other, "error") };
+                c.log.push(IoRec::Read { at: self.pos, want: want as u64, got: -1, f: Some(ks) });
                 return Err(Error::new(kind, "injected"));
             }
             Some("eof") => {
                 if want > 0 { c.hard_fault = true; }
-                c.log.push(json!({"op":"read","at":self.pos,"want":want,"got":0,"f":"eof"}));
+                c.log.push(IoRec::Read { at: self.pos, want: want as u64, got: 0, f: Some("eof") });
                 return Ok(0);
             }
             Some("interrupted") => {
-                c.log.push(json!({"op":"read","at":self.pos,"want":want,"got":-2,"f":"interrupted"}));
+                c.log.push(IoRec::Read { at: self.pos, want: want as u64, got: -2, f: Some("interrupted") });
                 return Err(Error::new(ErrorKind::Interrupted, "injected"));
             }
             _ => {}
@@ -105,7 +124,7 @@ impl ScriptedReader {
             if short { n = 1.max(n / 2); }
         }
         buf[..n].copy_from_slice(&self.data[self.pos as usize..self.pos as usize + n]);
-        c.log.push(json!({"op":"read","at":self.pos.min(i32::MAX as u64),"want":want.min(i32::MAX as usize),"got":n}));
+        c.log.push(IoRec::Read { at: self.pos.min(i32::MAX as u64), want: want.min(i32::MAX as usize) as u64, got: n as i64, f: None });
         self.pos += n as u64;
         Ok(n)
     }
@@ -125,7 +144,7 @@ impl ScriptedReader {
         }
         if matches!(f.as_deref(), Some("error") | Some("eof") | Some("wouldblock") | Some("timedout") | Some("brokenpipe") | Some("unexpectedeof")) {
             c.hard_fault = true;
-            c.log.push(json!({"op":"seek","f":"error"}));
+            c.log.push(IoRec::SeekFail("error"));
             // where a stream is after a failed seek is unspecified: half of the time the cursor HAS moved (to the
             // target, or somewhere else) although the call reports failure
             match next_rand(&mut c) % 4 {
@@ -141,11 +160,11 @@ impl ScriptedReader {
             SeekFrom::Current(o) => self.pos as i128 + o as i128,
         };
         if np < 0 {
-            c.log.push(json!({"op":"seek","f":"negative"}));
+            c.log.push(IoRec::SeekFail("negative"));
             return Err(Error::new(ErrorKind::InvalidInput, "negative seek"));
         }
         self.pos = np as u64;
-        c.log.push(json!({"op":"seek","to":self.pos.min(i32::MAX as u64)}));      // keep logged numbers inside 31 bits
+        c.log.push(IoRec::SeekTo(self.pos.min(i32::MAX as u64)));      // keep logged numbers inside 31 bits
         Ok(self.pos)
     }
 }
@@ -161,7 +180,7 @@ fn take_io(ctl: &Rc<RefCell<Ctl>>) -> (Value, bool) {
     let log = std::mem::take(&mut c.log);
     let hf = c.hard_fault;
     c.hard_fault = false;
-    (Value::Array(log), hf)
+    (Value::Array(log.iter().map(|r| r.json()).collect()), hf)
 }
 
 fn sevent(op: &Value, res: Value, a: u64, m: u64, ctl: &Rc<RefCell<Ctl>>) -> Value {
@@ -196,6 +215,7 @@ fn stream_bulk<E: EndianParse>(es: &mut ElfStream<E, ScriptedReader>, ctl: &Rc<R
     let (r, a, mx) = measured(|| {
         let (mut nok, mut sum) = (0u64, 0u64);
         for k in 0..n {
+            crate::alloc::heartbeat();      // each range is one public call of its own
             let sh = elf::section::SectionHeader { sh_name: 0, sh_type: 1, sh_flags: 0, sh_addr: 0, sh_offset: k % m, sh_size: size0 + 1 + k / m,
                                                    sh_link: 0, sh_info: 0, sh_addralign: 1, sh_entsize: 0 };
             if let Ok((d, _)) = es.section_data(&sh) {
